@@ -29,6 +29,7 @@ type loadOpts struct {
 	deep bool     // LoadAllSyntax: dependencies from source (needed for call graphs through the standard library)
 	tags string   // -tags value
 	env  []string // extra environment (GOOS=..., GOARCH=...)
+	dir  string   // load from this directory instead of the repository (checker's own positive controls)
 }
 
 // load type-checks patterns (relative to the module, e.g. "./benchfmt") in
@@ -38,7 +39,11 @@ func load(c *Ctx, o loadOpts, patterns ...string) (*Prog, error) {
 		packages.NeedTypes | packages.NeedTypesSizes | packages.NeedSyntax | packages.NeedTypesInfo | packages.NeedDeps | packages.NeedModule
 	env := append(os.Environ(), "GOFLAGS=-mod=mod", "GOPROXY=off", "GOSUMDB=off", "GOTOOLCHAIN=local", "GOWORK=off")
 	env = append(env, o.env...)
-	cfg := &packages.Config{Mode: mode, Dir: c.RepoDir, Env: env, Tests: false, Fset: token.NewFileSet()}
+	dir := c.RepoDir
+	if o.dir != "" {
+		dir = o.dir
+	}
+	cfg := &packages.Config{Mode: mode, Dir: dir, Env: env, Tests: false, Fset: token.NewFileSet()}
 	if o.tags != "" {
 		cfg.BuildFlags = []string{"-tags=" + o.tags}
 	}
@@ -51,7 +56,7 @@ func load(c *Ctx, o loadOpts, patterns ...string) (*Prog, error) {
 		return nil, fmt.Errorf("packages.Load: %v", err)
 	}
 	if len(pkgs) == 0 {
-		return nil, fmt.Errorf("no packages matched %v in %s", patterns, c.RepoDir)
+		return nil, fmt.Errorf("no packages matched %v in %s", patterns, dir)
 	}
 	p := &Prog{c: c, Fset: cfg.Fset, Pkgs: pkgs, byRel: map[string]*packages.Package{}, all: map[string]*packages.Package{}, deep: o.deep}
 	nerr := 0
@@ -73,7 +78,18 @@ func load(c *Ctx, o loadOpts, patterns ...string) (*Prog, error) {
 		}
 		rel := strings.TrimPrefix(strings.TrimPrefix(pk.PkgPath, modPath), "/")
 		p.byRel[rel] = pk
-		c.loaded[pk.PkgPath] = true
+		if o.dir == "" {
+			c.loaded[pk.PkgPath] = true
+		}
+		for _, e := range pk.Errors {
+			return nil, fmt.Errorf("%s: %v", pk.PkgPath, e)
+		}
+	}
+	if o.dir != "" {
+		prog, _ := ssautil.Packages(pkgs, 0)
+		prog.Build()
+		p.SSA = prog
+		return p, nil
 	}
 	cfgName := "default"
 	if o.tags != "" || len(o.env) > 0 {
